@@ -187,8 +187,7 @@ def retAtD (cfg : Cfg) (s : Net) (c : Nat) : Net :=
 def retAtA (cfg : Cfg) (s : Net) (c : Nat) : Net :=
   let x := s.conns c
   if x.retA || !x.regA then s else
-  let s1 := s.setConn c (fun x => { x with retA := true })
-  if s.ideal x.a then s1 else s1.setNode x.a (fun n => { n with rm := n.rm ++ [reportA cfg x] })
+  (s.setConn c (fun x => { x with retA := true })).setNode x.a (fun n => { n with rm := n.rm ++ [reportA cfg x] })
 
 def spaceOf (cfg : Cfg) (c : Nat) : Nat := if cfg.nonceBase then c + 1 else 0
 
@@ -208,34 +207,48 @@ def nodeKey (a : Nat) : Nat := 2000000 + a
 def failAll (p : List (Nonce × Nat)) (reqs : Nat → Req) : Nat → Req :=
   fun j => if (p.map Prod.snd).contains j ∧ (reqs j).out = .waiting then { reqs j with out := .err } else reqs j
 
+/-- `NewP2pRequest`: request number `s.nreq` -/
+def newReq (s : Net) (a b : Nat) : Net :=
+  { s with nreq := s.nreq + 1, reqs := fun j => if j = s.nreq then { src := a, dst := b } else s.reqs j }
+
+/-- the handler answers the request with an error (dial / handshake failure, other id announced) -/
+def failReq (s : Net) (i : Nat) : Net := s.setReq i (fun r => { r with out := .err })
+
+/-- receiveHandler of node `b` finds an entry under the key its duplicate guard looks up, and closes the new client -/
+def refused (cfg : Cfg) (s : Net) (a b : Nat) : Bool :=
+  !s.ideal b && ((s.nodes b).inb (keyVal cfg.inGuard b a a)).isSome && cfg.guardCloses
+
+def mkConn (cfg : Cfg) (s : Net) (a b x : Nat) : Conn :=
+  { d := a, a := b, ann := x,
+    key := if cfg.keyPerConn || s.ideal a || s.ideal b then s.nextKey else staticKey a b,
+    skD := if cfg.keyPerConn || s.ideal a then s.nextKey + 1 else nodeKey a,
+    skA := if cfg.keyPerConn || s.ideal b then s.nextKey + 2 else nodeKey b,
+    up := !refused cfg s a b, regA := !refused cfg s a b, clA := refused cfg s a b }
+
+/-- dial + handshake of `a` with `b` (which announces `x`) succeeded: connection number `s.nconn`; the
+accepting side registers it (or its duplicate guard closes it), the dialling side registers it -/
+def openConn (cfg : Cfg) (s : Net) (a b x : Nat) : Net :=
+  let c := s.nconn
+  let s1 : Net := { s with nconn := c + 1, nextKey := s.nextKey + 3,
+                           conns := fun e => if e = c then mkConn cfg s a b x else s.conns e }
+  let s2 := if s.ideal b || refused cfg s a b then s1 else
+    s1.setNode b (fun n => { n with inb := setTab n.inb (keyVal cfg.inStore b a a) (some c) })
+  s2.setNode a (fun n => { n with out := setTab n.out (keyVal cfg.outStore a x b) (some c) })
+
 def step (cfg : Cfg) (s : Net) : Ev → Net
   | .request a b dial =>
     let i := s.nreq
-    let s0 : Net := { s with nreq := i + 1, reqs := fun j => if j = i then { src := a, dst := b } else s.reqs j }
+    let s0 := newReq s a b
     match (s.nodes a).out b with
     | some c => hand cfg s0 i c
     | none =>
       match dial with
-      | none => s0.setReq i (fun r => { r with out := .err })
+      | none => failReq s0 i
       | some x =>
-        if cfg.idMatch && x != b then s0.setReq i (fun r => { r with out := .err }) else
-        let c := s.nconn
-        let fresh : Bool := cfg.keyPerConn || s.ideal a || s.ideal b
-        let gk := keyVal cfg.inGuard b a a
-        let refused : Bool := !s.ideal b && ((s.nodes b).inb gk).isSome && cfg.guardCloses
-        let conn : Conn :=
-          { d := a, a := b, ann := x,
-            key := if fresh then s.nextKey else staticKey a b,
-            skD := if cfg.keyPerConn || s.ideal a then s.nextKey + 1 else nodeKey a,
-            skA := if cfg.keyPerConn || s.ideal b then s.nextKey + 2 else nodeKey b,
-            up := !refused, regA := !refused, clA := refused }
-        let s1 : Net := { s0 with nconn := c + 1, nextKey := s.nextKey + 3,
-                                  conns := fun e => if e = c then conn else s.conns e }
-        let s2 := if s.ideal b || refused then s1 else
-          s1.setNode b (fun n => { n with inb := setTab n.inb (keyVal cfg.inStore b a a) (some c) })
-        let s3 := s2.setNode a (fun n => { n with out := setTab n.out (keyVal cfg.outStore a x b) (some c) })
-        let s4 := hand cfg s3 i c
-        if refused then retAtD cfg s4 c else s4
+        if cfg.idMatch && x != b then failReq s0 i else
+        let s4 := hand cfg (openConn cfg s0 a b x) i s.nconn
+        -- a client closed by the other side's guard: the dialler reads EOF, run returns
+        if refused cfg s0 a b then retAtD cfg s4 s.nconn else s4
   | .deliverReq c =>
     if c < s.nconn then
       let x := s.conns c
